@@ -3,6 +3,7 @@
 # line per property in .build/thorough-summary.txt.  Evidence files are left as the quick tier wrote them unless
 # KEEP_EVIDENCE=0.
 cd "$(dirname "$0")/.." || exit 2   # works from a snapshot copy of /verif as well
+mkdir -p .build
 OUT=.build/thorough-summary.txt
 : > $OUT
 for p in ${PROPS:-C01 C02 C03 C04 C05 C06 C07 C08 C09 C10 C11 C13 C14 C15 C16 C17 C18 C19 C20}; do
